@@ -1,6 +1,8 @@
 package keeper
 
 import (
+	"errors"
+
 	sdkmath "cosmossdk.io/math"
 	sdk "github.com/cosmos/cosmos-sdk/types"
 	stakingtypes "github.com/cosmos/cosmos-sdk/x/staking/types"
@@ -68,6 +70,13 @@ func (k Keeper) UnbondedOracleFromProposal(ctx sdk.Context, oracle types.Oracle)
 	delegateAddr := oracle.GetDelegateAddress(k.moduleName)
 	valAddr := oracle.GetValidator()
 	getOracleDelegateToken, err := k.GetOracleDelegateToken(ctx, delegateAddr, valAddr)
+	if errors.Is(err, stakingtypes.ErrNoDelegation) {
+		// nothing is delegated (an earlier removal undelegated everything and the oracle did not delegate
+		// again): there is nothing to undelegate, the oracle only goes offline
+		oracle.Online = false
+		k.SetOracle(ctx, oracle)
+		return nil
+	}
 	if err != nil {
 		return err
 	}
